@@ -659,6 +659,13 @@ func (tr *FnTrans) chanContract(op, class string) *FuncContract {
 			return fc
 		}
 	}
+	if tr.pkg != nil {
+		// package-wide event contract for channels without a class (channels
+		// obtained from a function value)
+		if fc, ok := tr.w.contracts[tr.pkg.Path()+"\x00chan."+op]; ok && class == "" {
+			return fc
+		}
+	}
 	if fc, ok := tr.w.contracts["chan."+op]; ok {
 		return fc
 	}
@@ -763,10 +770,9 @@ func (tr *FnTrans) selectOp(x *ssa.Select) {
 			}
 			// ... and offers each of its sends: "offer" event
 			if st.Dir == types.SendOnly {
-				if cl := chanClass(st.Chan); cl != "" && tr.pkg != nil {
-					if _, ok := tr.w.contracts[tr.pkg.Path()+"\x00chan.offer:"+cl]; ok {
-						tr.chanEvent("offer", tr.val(st.Chan), nil, x.Pos(), cl)
-					}
+				cl := chanClass(st.Chan)
+				if tr.chanContract("offer", cl) != nil {
+					tr.chanEvent("offer", tr.val(st.Chan), nil, x.Pos(), cl)
 				}
 			}
 		}
